@@ -1,6 +1,8 @@
 (* C16_corr.v — per-case comparison of the time stamp model with the implementation.
    bits: 1 = model agrees with the implementation, 2 = the implementation's output satisfies the
-   specification oracle, 4 = case inside the domain, 8 = input in the class of finding F17. *)
+   specification oracle, 4 = case inside the domain, 8 = input in the class where the library
+   layer alone builds a mixed-sign pair (the former finding F17; coverage statistics only: the
+   parser re-creates the instant, model and oracle make no exception for the class). *)
 From TkModel Require Import Base Dec Acct Txn Tstamp.
 From TkSpec Require Import Tstamp_spec.
 Local Open Scope Z_scope.
@@ -59,7 +61,7 @@ Definition c16_order_case (cfg : tscfg) (inp : list (ts_ast * str)) (obs : list 
 
 (* display: observed instant/offset of a transaction, offset of the report zone at that
    instant (oracle), the RFC 3339 text of the identity export and the label of the register *)
-Definition norm_jts (ns : Z) : jts := mkJts (Z.quot ns NS) (Z.rem ns NS).
+Definition norm_jts (ns : Z) : jts := ts_canon ns.
 Definition label_to_ts (l : str) : str := firstn 10 l ++ ch_T :: skipn 11 l.
 Definition year_in_range (c : civil) : bool := (0 <=? cv_y c) && (cv_y c <=? 9999).
 Definition c16_disp_case (ns off roff : Z) (rfc label : str) : N :=
